@@ -93,3 +93,6 @@ func (cm *MemClientMgr) VerifSetNextClientID(v uint32) { cm.nextClientID.Store(v
 
 // VerifRateLimitersLen reports the size of the per-address limiter table.
 func (s *Server) VerifRateLimitersLen() int { return len(s.rateLimiters) }
+
+// VerifRegisterWithTrackers runs the periodic tracker registration loop (first round at once; it never returns).
+func (s *Server) VerifRegisterWithTrackers(ctx context.Context) { s.registerWithTrackers(ctx) }
